@@ -93,6 +93,15 @@ static void h_u(int bits, unsigned long long x)
 	}
 }
 
+/* generator reading a tape (zeros once it is exhausted): the caller's gen_i of zzRandMod */
+typedef struct { const octet* p; size_t len, pos; } tape_t;
+static void tape_gen(void* buf, size_t count, void* state)
+{
+	tape_t* t = (tape_t*)state;
+	octet* b = (octet*)buf;
+	while (count--) *b++ = t->pos < t->len ? t->p[t->pos] : 0, t->pos++;
+}
+
 /* ------------------------------------------------------------------- zm / qr */
 static qr_o* mk_ring(const char* kind, const octet* mod, size_t no)
 {
@@ -452,6 +461,14 @@ static void handle(int argc, char** argv)
 		zzPowerMod(c, a, n, b, m, d, stk(zzPowerMod_deep(n, m) + zmCreate_keep(O_OF_W(n)))); out_w(c, n); return;
 	}
 	if (IS("zzPowerModW") && argc == 3) { out_u(zzPowerModW(wd(argv[0]), wd(argv[1]), wd(argv[2]), stk(zzPowerModW_deep()))); return; }
+	if ((IS("zzRandMod") || IS("zzRandNZMod")) && argc == 2)
+	{
+		/* zzRandMod W mod tape -> flag [a] consumed-octets */
+		tape_t t; bool_t ok;
+		d = wa(argv[0], &k); t.p = hex_arg(argv[1], &t.len); t.pos = 0; a = wnew(k);
+		ok = IS("zzRandMod") ? zzRandMod(a, d, k, tape_gen, &t) : zzRandNZMod(a, d, k, tape_gen, &t);
+		out_u(ok); if (ok) out_w(a, k); out_u(t.pos); return;
+	}
 	/* -------------------------------------------------------- zz reductions */
 	if (IS("zzRed") && argc == 2) { a = wa(argv[0], &n); d = wa(argv[1], &k); zzRed(a, d, k, stk(zzRed_deep(k))); out_w(a, k); return; }
 	if (IS("zzRedBarrStart") && argc == 1) { d = wa(argv[0], &k); c = wnew(k + 2); zzRedBarrStart(c, d, k, stk(zzRedBarrStart_deep(k))); out_w(c, k + 2); return; }
